@@ -19,7 +19,8 @@ type genQuota struct {
 
 var (
 	maxes = []int64{1, 1, 2, 2, 3, 5}
-	wins  = []int64{1 * sec, 1 * sec, 2 * sec, 3 * sec, 60 * sec, 120 * sec, 3600 * sec}
+	wins  = []int64{1 * sec, 1 * sec, 2 * sec, 3 * sec, 60 * sec, 120 * sec, 3600 * sec, 7200 * sec,
+		86400 * sec, 2 * 86400 * sec, 30 * 86400 * sec, 60 * 86400 * sec}
 )
 
 func genForest(r *prng.R, n int) []*genQuota {
@@ -50,6 +51,15 @@ func genForest(r *prng.R, n int) []*genQuota {
 			q.pct = prng.Pick(r, []int{1, 10, 33, 50, 60, 100})
 			q.max, q.win, q.gh, q.cc = p.max*int64(q.pct)/100, p.win, p.gh, p.cc
 		}
+		if q.pct < 0 { // write the window in any unit of the configuration format that fits (second … month)
+			var fit []string
+			for _, u := range []string{"second", "minute", "hour", "day", "month"} {
+				if q.win%unitNs[u] == 0 && q.win/unitNs[u] <= 1000000 {
+					fit = append(fit, u)
+				}
+			}
+			q.wu = prng.Pick(r, fit)
+		}
 		if q.pct < 0 && r.Chance(20) { // optional spillover block (inert in this code base)
 			q.sp = int64(r.Range(1, 10))
 		}
@@ -71,6 +81,9 @@ func quotaLine(q quotaCfg) string {
 	sp := ""
 	if q.sp > 0 {
 		sp = fmt.Sprintf(" sp=%d", q.sp)
+	}
+	if q.wu != "" {
+		sp += " wu=" + q.wu
 	}
 	if q.cc >= 0 {
 		return fmt.Sprintf("quota id=%d parent=%s max=%d win=%d gh=%s cc=%d%s", q.id, opt(q.parent), q.max, q.win, opt(q.gh), q.cc, sp)
@@ -101,6 +114,15 @@ func nextTime(r *prng.R, now int64, chain []*genQuota) int64 {
 		t = now + int64(r.Intn(3))*1 + int64(r.Intn(2))*int64(r.Intn(400_000_000))
 	case c < 55:
 		t = now + int64(r.Range(1, 1500))*1_000_000
+	case c < 63:
+		// a fraction of a window of the chain after its start (where a wrong unit conversion - seconds per
+		// minute, hours per day, days per month - would put the end of the window), or that far from now
+		q := prng.Pick(r, chain)
+		base := q.start
+		if base < 0 || r.Chance(30) {
+			base = now
+		}
+		t = base + q.win/prng.Pick(r, []int64{60, 30, 24, 12, 7, 2}) + prng.Pick(r, []int64{0, 1, sec, -sec, 3600 * sec})
 	default:
 		q := prng.Pick(r, chain)
 		base := q.start
